@@ -56,7 +56,7 @@ static const Arg LAT{'r', 'u', -89.5, 89.5, "lat"}, LON{'r', 'u', -179.5, 179.5,
   PHI{'r', 'u', -3, 3, "rad"}, TAU{'r', 'l', 1e-3, 50, "gen"}, ES{'r', 'u', -0.5, 0.5, "unit"}, CART{'r', 'l', 1e5, 1e7, "cart"},
   TIME{'r', 'u', 2025, 2035, "time"}, K2{'r', 'u', -2, 0.95, "k2"}, FLAT{'r', 'u', -0.1, 0.1, "unit"},
   PREC{'i', 'u', 0, 5, "prec"}, MPREC{'i', 'u', 0, 5, "mprec"}, GLEN{'i', 'u', 1, 12, "len"}, GPREC{'i', 'u', 0, 2, "gprec"}, ZONE{'i', 'u', 1, 60, "zone"},
-  SETZ{'i', 'u', -1, -1, "setzone"}, DEG{'i', 'u', 0, 8, "deg"}, EPSG{'i', 'u', 32601, 32660, "epsg"}, AUXI{'i', 'u', 0, 5, "aux"};
+  SETZ{'i', 'u', -1, -1, "setzone"}, YEAR{'i', 'u', 1990, 2030, "int"}, MON{'i', 'u', 1, 12, "int"}, DAY{'i', 'u', 1, 28, "int"}, DEG{'i', 'u', 0, 8, "deg"}, EPSG{'i', 'u', 32601, 32660, "epsg"}, AUXI{'i', 'u', 0, 5, "aux"};
 
 inline const std::vector<double>& real_specials() {
   static std::vector<double> v;
@@ -90,12 +90,16 @@ inline std::vector<double> bad_values(const Arg& a) {
   if (t == "zone") return {-5, -4, -3, -2, -1, 0, 61, 62, 100, INT_MAX, INT_MIN};
   if (t == "setzone") return {-5, -6, 61, 100, INT_MAX, INT_MIN, 0, 30, -2, -3};
   if (t == "epsg") return {0, -1, 32600, 32661, 32700, 32761, INT_MAX, INT_MIN};
+  if (t == "int" || t == "deg") return {-1, 0, 13, 32, 1000000, INT_MAX, INT_MIN};
   if (t == "aux") return {-1, 6, 7, 100, INT_MAX, INT_MIN};
   return {1e300, -1e300};
 }
 
+// safe conversion of an int-kind argument (the harness must not commit the UB it hunts)
+inline int I(double x) { return std::isnan(x) ? 0 : x >= 2147483647.0 ? INT_MAX : x <= -2147483648.0 ? INT_MIN : (int)x; }
+
 struct Entry {
-  std::string name; std::vector<Arg> in; std::string out;   // out: r real, z zone-int, i int, b bool, s code-string, d dms-string, n string(no marker)
+  std::string name; std::vector<Arg> in; std::string out;   // out: r real, x real exempt from the NaN rule (cache bounds), z zone-int, i int, b bool, s code-string, d dms-string, n string(no marker)
   bool validating;
   std::function<void(const double*, Outs&)> call;
 };
